@@ -569,6 +569,8 @@ type FW struct {
 	// Late: the context (with its deadline) is made first and WaitContext is only called at the very instant the
 	// deadline passes - when the clock says "past the deadline" but the context may not have noticed yet
 	Late bool `json:"late,omitempty"`
+	// Detached: the context is of a hand-written type (sk.Detach)
+	Detached bool `json:"detached,omitempty"`
 }
 
 func genF(t *rapid.T) FPlan {
@@ -576,7 +578,7 @@ func genF(t *rapid.T) FPlan {
 		VType: rapid.SampledFrom([]string{"", "", "int0", "any-nil", "error-nil", "ptr-nil", "any-int"}).Draw(t, "vtype")}
 	for n := rapid.IntRange(1, 6).Draw(t, "n"); n > 0; n-- {
 		p.Waiters = append(p.Waiters, FW{StartMs: rapid.SampledFrom([]int{0, 5, 10, 15, 30}).Draw(t, "start"),
-			Timeout: rapid.SampledFrom([]int{0, 0, 3, 10, 50}).Draw(t, "timeout"), Plain: rapid.Bool().Draw(t, "plain"), CancelOnly: rapid.Bool().Draw(t, "cancelonly"), Late: rapid.IntRange(0, 3).Draw(t, "late") == 0})
+			Timeout: rapid.SampledFrom([]int{0, 0, 3, 10, 50}).Draw(t, "timeout"), Plain: rapid.Bool().Draw(t, "plain"), CancelOnly: rapid.Bool().Draw(t, "cancelonly"), Late: rapid.IntRange(0, 3).Draw(t, "late") == 0, Detached: rapid.IntRange(0, 4).Draw(t, "detached") == 0})
 	}
 	return p
 }
@@ -627,6 +629,9 @@ func runFT[T comparable](p FPlan, val T) (vk.Outcome, error) {
 						ctx, c = sk.WithCancel(ctx)
 						tm := time.AfterFunc(time.Duration(wt.Timeout)*time.Millisecond, c)
 						cancel = func() { tm.Stop(); c() }
+					}
+					if wt.Detached {
+						ctx = sk.Detach(ctx)
 					}
 					v, err = f.WaitContext(ctx)
 					cancel()
